@@ -302,8 +302,6 @@ def run(tier, seed):
         reached = 0
         for (origin, text), r in zip(inputs, results):
             cls = failure_class(r)
-            if cls:
-                cls = M.canon_panic_class(v.known, cls, r["msg"])
             kinds[origin.split("#")[0].split("/")[0]] = kinds.get(origin.split("#")[0].split("/")[0], 0) + 1
             n = len(text.encode("utf-8", "surrogateescape"))
             sizes["<100" if n < 100 else "<1k" if n < 1000 else "<10k" if n < 10000 else "<64k"] += 1
